@@ -51,7 +51,7 @@ func main() {
 
 var excluded = regexp.MustCompile(`^(Reset.*|SetConn|Exile|Hijack|SetHijackHandler|Copy|CopyTo|Next|Flush|File.*|ServeFile|SaveUploadedFile|Finished|SetHandlers|SetTraceInfo|SetEnableTrace|SetBinder|SetValidator|SetClientIPFunc|SetFormValueFunc|Render|HTML|ProtoBuf|Bind.*|Validate|MustGet|SetIsTLS|SetMaxKeepBodySize|SwapBody|ConstructBodyStream|BodyWriteTo|WriteTo|Write|CloseBodyStream|ReadFrom|SetOptions|Parse.*|HijackWriter|SetBodyStreamWriter|SetFullPath|SetIndex|ForEachKey|VisitAll.*|Release.*)$`)
 
-var strPool = []string{"", "a", "k1", "X-Dirty", "Cookie", "Content-Type", "text/dirty", "/dirty/path?dq=1", "dirty=1&z=2", "Connection", "close", "Trailer", "Foo", "Content-Length", "5", "Host", "dirty.host", "gzip", "Set-Cookie", "dk=dv; path=/", "Content-Encoding", "Range", "bytes=0-1", "Transfer-Encoding", "chunked", "Server", "Date"}
+var strPool = []string{"/..", "/a/../..", "X", "", "a", "k1", "X-Dirty", "Cookie", "Content-Type", "text/dirty", "/dirty/path?dq=1", "dirty=1&z=2", "Connection", "close", "Trailer", "Foo", "Content-Length", "5", "Host", "dirty.host", "gzip", "Set-Cookie", "dk=dv; path=/", "Content-Encoding", "Range", "bytes=0-1", "Transfer-Encoding", "chunked", "Server", "Date"}
 
 var (
 	tReader = reflect.TypeOf((*io.Reader)(nil)).Elem()
@@ -671,6 +671,19 @@ var poolKinds = []poolKind{
 	{"Cookie", func() reflect.Value { return reflect.ValueOf(protocol.AcquireCookie()) }, func(v reflect.Value) { protocol.ReleaseCookie(v.Interface().(*protocol.Cookie)) }, func() reflect.Value { return reflect.ValueOf(&protocol.Cookie{}) }},
 }
 
+// canary: nothing done to one object may change what untouched objects report (hertz
+// shares a few byte-slice constants such as "/" between all of them)
+func canary() string {
+	var u protocol.URI
+	u.Parse(nil, []byte("http://canary.host"))
+	var ck protocol.Cookie
+	ck.SetPath("/a/..")
+	if p1, p2, p3 := string((&protocol.URI{}).Path()), string(u.Path()), string(ck.Path()); p1 != "/" || p2 != "/" || p3 != "/" {
+		return fmt.Sprintf("an untouched URI reports path %q, http://canary.host parses to path %q, a cookie with path /a/.. reports %q (want / each)", p1, p2, p3)
+	}
+	return ""
+}
+
 func subDump(kind string, v reflect.Value) string {
 	var sb strings.Builder
 	dumpValue(&sb, kind, v)
@@ -704,6 +717,9 @@ func subDump(kind string, v reflect.Value) string {
 		fmt.Fprintf(&sb, "full=%q q=%v", x.FullURI(), hs)
 	case *protocol.Cookie:
 		fmt.Fprintf(&sb, "cookie=%q", x.Cookie())
+		// use: the object parses a cookie string it was handed (a one-byte path included)
+		x.Parse("pk=pv; path=X; domain=D.example") //nolint:errcheck
+		fmt.Fprintf(&sb, "\nuse: cookie=%q", x.Cookie())
 	}
 	return sb.String()
 }
@@ -784,6 +800,10 @@ func poolFamily(w *mon.W) {
 			c.Violate(diffKey(want, got)+"@pool."+pk.name, "Acquire%s after Release returns an object that differs from a zero value after program %v:\n   %s", pk.name, ds, diffLines(want, got))
 		}
 		pk.release(again)
+		if msg := canary(); msg != "" {
+			c.Violate("shared-state-corrupted", "after program %v on a pooled %s and its reuse: %s", ds, pk.name, msg)
+			return
+		}
 		if len(ds) >= 2 {
 			w.Shape(mon.Hash64("pool", pk.name, strings.Join(ds, ";")))
 		}
